@@ -11,6 +11,7 @@
 #include <algorithm>
 
 Sim *g_sim = nullptr;
+char *g_curtask_shm = nullptr;   // shared page: name of the task currently running (for crash attribution)
 
 #if defined(__has_feature)
 #if __has_feature(address_sanitizer)
@@ -223,11 +224,13 @@ void Sim::resume(Task *t)
 {
 	cur = t;
 	t->state = T_RUNNABLE;
+	if (g_curtask_shm) { strncpy(g_curtask_shm, t->name.c_str(), 31); g_curtask_shm[31] = 0; }
 	void *fake = nullptr;
 	__sanitizer_start_switch_fiber(&fake, t->stack, t->stack_size);
 	swapcontext(&sched_ctx, &t->ctx);
 	__sanitizer_finish_switch_fiber(fake, nullptr, nullptr);
 	cur = nullptr;
+	if (g_curtask_shm) g_curtask_shm[0] = 0;
 }
 
 // called on a fiber: give control back to the scheduler until woken
